@@ -3,3 +3,11 @@ import PeptVerif.Props.C02
 #print axioms Pept.C02.nuclide_table_ok
 #print axioms Pept.C02.average_table_ok
 #print axioms Pept.C02.particles_ok
+#print axioms Pept.C02.adjust_tables_ok
+#print axioms Pept.C02.mass_eq_spec_partial
+#print axioms Pept.C02.mz_eq_spec_partial
+#print axioms Pept.C02.adjustMz_pos
+#print axioms Pept.C02.precision_bound
+#print axioms Pept.C02.adductMass_discrepancy
+#print axioms Pept.C02.adductMass_count_one
+#print axioms Pept.C02.mass_eq_spec_full_false_on_current_code
